@@ -59,6 +59,9 @@ pub struct Features {
     /// Focus profile (only where `allowed` asks for it): very few locations, fractional cost coefficients, no fixed cost,
     /// no time windows - many candidates of mathematically equal cost whose computed costs differ in the last bits.
     pub tie_focus: bool,
+    /// Focus profile: vicinity clustering with an explicit filter and wide thresholds on few locations, together with user
+    /// relations (rare state: a job of a relation has close neighbours which are clustered).
+    pub cluster_relation_focus: bool,
 }
 
 impl Features {
@@ -71,7 +74,7 @@ impl Features {
             multi_job, multi_dim, multi_tw, multi_place, tags, skills, groups, compat, order, value, limits, tour_size,
             multi_shift, open_end, latest_departure, unreachable, multi_profile, scale, reloads, shared_reload,
             opt_breaks, req_breaks, relations, nonmetric, asymmetric, objectives, same_location, tight, many_vehicles,
-            replacement, service, pickups, unreachable_random, reload_focus, shift_focus, clustering, recharges, time_dependent, tie_focus
+            replacement, service, pickups, unreachable_random, reload_focus, shift_focus, clustering, recharges, time_dependent, tie_focus, cluster_relation_focus
         );
         v
     }
@@ -109,6 +112,16 @@ impl Features {
             f.opt_breaks = false;
             f.multi_shift = false;
         }
+        if allowed.clustering && allowed.relations && !f.reload_focus && p.chance(0.04) {
+            f.cluster_relation_focus = true;
+            f.clustering = true;
+            f.relations = true;
+            f.same_location = true;
+            f.nonmetric = false;
+            f.time_dependent = false;
+            f.unreachable = false;
+            f.unreachable_random = false;
+        }
         if allowed.tie_focus && p.chance(0.12) {
             f.tie_focus = true;
             f.same_location = true;
@@ -144,6 +157,7 @@ impl Features {
             recharges: false,
             time_dependent: false,
             tie_focus: false,
+            cluster_relation_focus: false,
         }
     }
 }
@@ -658,8 +672,8 @@ pub fn generate(seed: u64, limits: &GenLimits, allowed: &Features) -> GenProblem
         }
         c.insert("profile".into(), Value::Object(prof));
         let mut th = Map::new();
-        th.insert("duration".into(), json!(*cx.p.pick(&[60.0, 200.0, 600.0, 2000.0])));
-        th.insert("distance".into(), json!(*cx.p.pick(&[50.0, 200.0, 500.0, 2000.0])));
+        th.insert("duration".into(), json!(if f.cluster_relation_focus { 2000.0 } else { *cx.p.pick(&[60.0, 200.0, 600.0, 2000.0]) }));
+        th.insert("distance".into(), json!(if f.cluster_relation_focus { 2000.0 } else { *cx.p.pick(&[50.0, 200.0, 500.0, 2000.0]) }));
         if cx.p.chance(0.3) {
             th.insert("minSharedTime".into(), json!(*cx.p.pick(&[0.0, 60.0, 600.0])));
         }
@@ -680,9 +694,10 @@ pub fn generate(seed: u64, limits: &GenLimits, allowed: &Features) -> GenProblem
                 _ => json!({ "type": "fixed", "value": *cx.p.pick(&[0.0, 30.0, 200.0]), "parking": parking }),
             },
         );
-        if cx.p.chance(0.3) {
+        if cx.p.chance(0.3) || f.cluster_relation_focus {
             let n_jobs = problem["plan"]["jobs"].as_array().map_or(0, |j| j.len());
-            let ids: Vec<String> = (0..n_jobs).filter(|_| cx.p.chance(0.3)).map(|j| format!("j{j}")).collect();
+            let share = if f.cluster_relation_focus { 0.1 } else { 0.3 };
+            let ids: Vec<String> = (0..n_jobs).filter(|_| cx.p.chance(share)).map(|j| format!("j{j}")).collect();
             c.insert("filtering".into(), json!({ "excludeJobIds": ids }));
         }
         problem["plan"]["clustering"] = Value::Object(c);
